@@ -51,12 +51,48 @@ def r111(ctx):
     sinks = [c for c in walk_local(f) if isinstance(c, ast.Call) and isinstance(c.func, ast.Attribute) and c.func.attr in SINKS]
     if not sinks:
         raise AnalysisError("R-11.1: no engine calls found in retis_swap_zero")
+    # position of the *end* classification in the tuple returned by Path.check_interfaces
+    ci = tree.func("infretis/classes/path.py", "Path.check_interfaces")
+    end_idx = None
+    for rr in [n for n in walk_local(ci) if isinstance(n, ast.Return) and isinstance(n.value, ast.Tuple)]:
+        names = [ast.unparse(x) for x in rr.value.elts]
+        if "end" in names:
+            end_idx = names.index("end")
+    if end_idx is None:
+        raise AnalysisError("R-11.1: Path.check_interfaces does not return a tuple containing `end`")
     early = None
+    wrong_end = None
     for r in rets:
-        g = [(ast.unparse(e), t) for e, t, _ in cfg.guards(cfg.node_of(r))]
-        if any("start_cond" in x and t for x, t in g) and any("check_interfaces" in x and "== 'L'" in x and t for x, t in g):
-            early = r
-    if early is None:
+        guards = cfg.guards(cfg.node_of(r))
+        g = [(ast.unparse(e), t) for e, t, _ in guards]
+        if not any("start_cond" in x and t for x, t in g):
+            continue
+        for e, t, _ in guards:
+            if not t or not isinstance(e, ast.Compare) or not isinstance(e.ops[0], ast.Eq):
+                continue
+            l, rgt = e.left, e.comparators[0]
+            if not (isinstance(rgt, ast.Constant) and rgt.value == "L"):
+                continue
+            # check_interfaces(...)[end_idx]  or  get_end_point(...)
+            if isinstance(l, ast.Subscript) and isinstance(l.value, ast.Call) and last_name(l.value) == "check_interfaces":
+                try:
+                    k = ast.literal_eval(l.slice)
+                except Exception:
+                    k = None
+                if k in (end_idx, end_idx - 4):
+                    early = r
+                else:
+                    wrong_end = (r, k)
+            if isinstance(l, ast.Call) and last_name(l) == "get_end_point":
+                early = r
+    if early is None and wrong_end is not None:
+        ctx.bad(rid, wrong_end[0], f"the lambda_-1 early rejection tests element {wrong_end[1]} of check_interfaces(...) - not the end point (element {end_idx}): "
+                "a valid [0-] path that starts on the left is rejected, and a path that ended on the left is propagated before being rejected",
+                construct=f"early '0-L' rejection on check_interfaces(...)[{wrong_end[1]}]")
+        early = "reported"
+    if early == "reported":
+        pass
+    elif early is None:
         ctx.bad(rid, f, "retis_swap_zero has no early rejection '0-L' for an old [0-] path that ended on the left when the ensemble allows both start sides (lambda_-1 variant): the move propagates before it is rejected, or is not rejected at all")
     else:
         rn = cfg.node_of(early)
@@ -386,6 +422,8 @@ VARIANTS = [
     B("c11-beta-hoisted-copy-paste", TIS, "    pacc = min(1.0, np.exp(deltaV0 * engine0.beta - deltaV1 * engine1.beta))", "    beta0 = engine0.beta\n    beta1 = engine0.beta\n    pacc = min(1.0, np.exp(deltaV0 * beta0 - deltaV1 * beta1))", "R-11.4", why="seeded C11_a"),
     B("c11-energy-levels-crossed", TIS, "    deltaV1 = V1_r0 - V1_r1", "    deltaV1 = V0_r0 - V1_r1", "R-11.4"),
     K("c11-keep-beta-hoisted", TIS, "    pacc = min(1.0, np.exp(deltaV0 * engine0.beta - deltaV1 * engine1.beta))", "    beta0 = engine0.beta\n    beta1 = engine1.beta\n    pacc = min(1.0, np.exp(beta0 * deltaV0 - beta1 * deltaV1))"),
+    B("c11-early-reject-on-start-point", TIS, 'if path_old0.check_interfaces(ens_set0["interfaces"])[1] == "L":', 'if path_old0.check_interfaces(ens_set0["interfaces"])[0] == "L":', "R-11.1", why="seeded C11_b"),
+    K("c11-keep-early-reject-via-end-point", TIS, 'if path_old0.check_interfaces(ens_set0["interfaces"])[1] == "L":', 'if path_old0.get_end_point(ens_set0["interfaces"][0], ens_set0["interfaces"][-1]) == "L":'),
     K("c11-keep-alias-old-path", TIS, "    shpt_copy = path_old1.phasepoints[0].copy()\n    # shpt_copy2", "    first_plus = path_old1\n    shpt_copy = first_plus.phasepoints[0].copy()\n    # shpt_copy2"),
     K("c11-keep-reverse-positional", TIS, "        engine1.propagate(path_tmp, ens_set1, system, reverse=False)", "        engine1.propagate(path_tmp, ens_set1, system)"),
 ]
